@@ -8,6 +8,16 @@ def run(ctx: Ctx) -> None:
     t10_flow.run_normalize(ctx)
     t10_flow.run_default_axes(ctx)
     ctx.floor("T10x.default-axes", 4)
+    # converting vectors between two grids in one step (grid_transform_vectors with axes != to_axes) is the grid's own two-grid map
+    from ..tables import t1_grid
+    with ctx.only("T1.two-grids"):
+        t1_grid.run_grid_tables(ctx)
+    ctx.floor("T1.two-grids", 64)
+    # observation point "FlowField.sitk() / write (world axes)": files and SimpleITK images hold world vectors, and read / from_sitk label them so
+    from ..tables import t18_io
+    with ctx.only("T18.flow-api"):
+        t18_io.run_entry_points(ctx)
+    ctx.floor("T18.flow-api", 8)
     ctx.floor("T10x.axes", 8)
     ctx.floor("T10x.exp", 8)
     ctx.floor("T10x.warp", 8)
@@ -37,6 +47,8 @@ def mutants(prog):
         ("transform: internal float size", G, "Grid.transform", "half_size = 0.5 * self.size_tensor()", "half_size = 0.5 * self._size", "fractional-size"),
         ("flow sample: GRID vectors not re-expressed", D, "FlowFields.sample", "if axes != Axes.WORLD:", "if axes in (Axes.CUBE, Axes.CUBE_CORNERS):", "T10x.sample"),
         ("FlowField: default axes from the library-wide flag", D, "FlowField.__init__", "axes = Axes.from_grid(self._grid)", "axes = Axes.from_arg(None)", "T10x.default-axes"),
+        ("two grids: target axes taken from the source side", G, "Grid.transform", "world_to_source = to_grid.transform(Axes.WORLD, to_axes, vectors=vectors)", "world_to_source = to_grid.transform(Axes.WORLD, axes, vectors=vectors)", "T1.two-grids"),
+        ("FlowField.read: default axes not world", D, "FlowField.read", "axes=axes or Axes.WORLD", "axes=axes", "T18.flow-api"),
     ]
     for name, mod, fn, old, new, expect in specs:
         ov = source_sub(prog, mod, fn, old, new)
